@@ -336,14 +336,6 @@ theorem isNormal_ne_zero (b : Nat) (h : F64.isNormal b = true) : F64.eq b 0 = fa
   rw [hk0]
   simp [hne]
 
-/-- the condition under which `Op::type_info` types `/` infallible -/
-def divInfallible (l : TypeDef) (rv : Option Value) : Bool :=
-  (l.kind.isFloat || l.kind.isInteger) &&
-  (match rv with
-   | some (.float b) => F64.isNormal b
-   | some (.int i) => i != 0
-   | _ => false)
-
 theorem div_sound (v w : Value) (l : TypeDef) (rv : Option Value) (hv : memR v l.kind = true)
     (hrv : ∀ c, rv = some c → w = c) :
     (∀ x, Arith.tryDiv v w = .ok x → ∃ b, x = .float b) ∧
